@@ -281,6 +281,39 @@ func (w *world) eval(line string) (out evalOut) {
 		}
 		out.ref = b2s(c.eq(rp, c.id()))
 		out.model = []string{"ISID " + m + " " + args[0]}
+	case "TORS":
+		// IsTorsionFree = (n * P is the identity)
+		if !need(1) {
+			return out
+		}
+		p, rp := pt(args[0])
+		out.impl = b2s(g.torsFree(p))
+		out.ref = b2s(c.eq(c.mul(g.n, rp), c.id()))
+		out.model = []string{"ORDN " + m + " " + args[0]}
+	case "CLRCOF":
+		// ClearCofactor lands in the prime-order subgroup, is the identity map on curves with cofactor 1
+		// as the library reports it, and is multiplication by 8 on edwards25519 / curve25519
+		if !need(1) {
+			return out
+		}
+		p, rp := pt(args[0])
+		r := g.clearCof(p)
+		rr, err := c.parse(g.text(r))
+		switch {
+		case err != nil:
+			out.impl = "unparsable:" + g.text(r)
+		case !c.onCurve(rr):
+			out.impl = "not-on-curve"
+		case !c.eq(c.mul(g.n, rr), c.id()):
+			out.impl = "not-in-prime-subgroup"
+		case (g.kind == 'e' || g.kind == 'm') && !c.eq(rr, c.mul(big.NewInt(8), rp)):
+			out.impl = "not-8P:" + g.text(r)
+		case c.eq(c.mul(g.n, rp), c.id()) && g.kind == 'w' && g.cof.Cmp(big.NewInt(1)) == 0 && g.prime && !c.eq(rr, rp):
+			out.impl = "moved-a-subgroup-point-on-a-cofactor-1-curve"
+		default:
+			out.impl = "subgroup"
+		}
+		out.ref = "subgroup"
 	case "ONC":
 		if !need(1) {
 			return out
@@ -864,6 +897,8 @@ func whatOf(line string) string {
 		return "correspondence Double = waff_double (Curve.v); theorems dbl_agrees, add_doubling_agrees"
 	case "NEG":
 		return "correspondence Neg = waff_neg; theorem neg_agrees"
+	case "TORS", "CLRCOF":
+		return "IsTorsionFree = (n*P = identity); ClearCofactor maps into the prime-order subgroup (implementation predicate + affine model)"
 	case "EQ", "ISID":
 		return "correspondence Equal/IsZero; theorem equal_iff_same_affine"
 	case "ONC":
@@ -994,8 +1029,9 @@ func main() {
 	res.Rule = "cases are lines 'OP group args' generated from the seeded SHAKE stream: per group an exceptional pool " +
 		"(identity, G, -G, 2G, random P, -P, 2P, P+G, points with x=0 where they exist, all 8 small-order points and mixed-order points on edwards25519/curve25519, " +
 		"points outside the prime subgroup on BLS12-381) crossed with itself and with random points for Add/Sub/Equal; Double/low-level Double/Neg/IsIdentity on the pool; " +
-		"SetAffine on valid and perturbed coordinates; scalars 0,1,2,n-1,n,n+1,2^256-1,random for ScalarMul/ScalarBaseMul; arbitrary byte strings (length 0..40) for " +
-		"ScalarMulLowLevel; MultiScalarMul of every length 0..40 (quick) with zero scalars, identity, repeated and opposite points; MultiScalarMulLowLevel with unequal-length scalar strings; " +
+		"IsTorsionFree (= n*P is the identity) and ClearCofactor (lands in the prime subgroup; 8*P on edwards25519) on the pool; SetAffine on valid and perturbed coordinates; scalars 0,1,2,n-1,n,n+1,2^256-1,random for ScalarMul/ScalarBaseMul; arbitrary byte strings (length 0..40) for " +
+		"ScalarMulLowLevel; MultiScalarMul of every length 0..40 (quick) with zero scalars, identity, repeated and opposite points; MultiScalarMulLowLevel with unequal-length scalar strings; algebrautils.ScalarMul / MultiScalarMul on natural numbers up to 300 bits; " +
+		"the theorems' hypotheses (no 2-torsion, d non-square, a square, char not 2,3) decided per curve; " +
 		"field add/sub/mul/neg/square/inv/sqrt/wide-reduction on boundary and random values for every base and scalar field; pairing bilinearity/non-degeneracy on the implementation. " +
 		"A case is non-trivial unless it is rejected at the first guard (coordinates not on the curve, over-long wide input)."
 	if a.Replay != "" {
